@@ -192,8 +192,16 @@ def runSolver (inp : Inp) (fuel : Nat) (ek : Bool) : RunObs × Option Solver :=
   | none => ({ pre := pre, flow := "STUCK", assign := "STUCK", res := [], stuck := true }, none)
   | some d =>
     let a := d.assignment? inp.s
+    -- the same object run again `rr` times (model: `Solver.runN`; proved to change nothing:
+    -- Props.C01.ek_ff_rerun_same_value / Props.C02.ek_ff_rerun_same_cut)
+    let (f2, a2, stuck2) :=
+      if inp.rr > 0 && inp.rr ≤ 64 then
+        match Solver.runN (if ek then popBack else popFront) fuel inp.rr d with
+        | some d2 => (some (outIntS d2.maxFlow?), some (outBitsS (d2.assignment? inp.s)), false)
+        | none => (some "STUCK", some "STUCK", true)
+      else (none, none, false)
     ({ pre := pre, flow := outIntS d.maxFlow?, assign := outBitsS a, res := d.g.triples,
-       stuck := a matches .stuck }, some d)
+       stuck := (a matches .stuck) || stuck2, flow2 := f2, assign2 := a2 }, some d)
 
 def renderObs (withPre withAssign : Bool) (solver : String) (o : RunObs) : Array String :=
   let cls := if o.free then "F" else "D"
